@@ -22,7 +22,7 @@ PROP = {
              # every large length typenum names (2^k, 2^k-1 for k = 13..62, 10^k for k = 5..18) ALONE in its own
              # crate, compiled with rustc's default settings: the depth of the type-level recursion one length
              # needs by itself (in one crate the solver reuses what it proved for the shorter lengths)
-             {"tag": "c01p", "bin": "c01p"}],
+             {"tag": "c01p", "bin": "c01p", "no_default_features": True}],
     "mismatch_is_failing": True,
     "rule": "matrix, no sampling: quick = 15 element layouts (u8 u16 u32 u64 u128 () [u8;3] (u8,u16) (u8,u32) packed(5 bytes) align(16) align(64)-ZST [u16;0] GenericArray<u8,U3> GenericArray<u32,U2>) x lengths 0..=64 + {97,127,128,255,256,1023,1024,1025} + 17 non-normalised digit patterns (leading B0 digits), + every typenum 2^k, 2^k-1 (k=13..62) and 10^k (k=5..18) for the zero-sized layouts, u8 (<= 2^56) and u32 (<= 2^54), + ConstDefault-built arrays of 4 pattern types, + 6 nested array shapes x 33 outer lengths (flat offsets), + the const_transmute size guard on 32 size pairs, + (run c01p) each of those large lengths alone in a separately compiled crate (rustc defaults) for the three zero-sized layouts, u8 and u32; thorough = additionally every length 0..=1024 and {2047,2048,2049,3000,4095,4096,10000} for the 15 layouts, 28 further element layouts (sizes 2..=64, alignments 2..=4096, padded tuples, packed(2), repr(C), aligned zero-sized, empty and nested GenericArrays) x the quick length set, ConstDefault arrays for every length 0..=1024. Each case compares size_of, align_of, as_slice().len() and the byte offsets of elements (all of them up to N=128, else i=0,1,N/2,N-1 and the absent N) with the layout model evaluated on the crate's declarations; lengths above 4096: size and alignment against the model (linear-time evaluation proved equal), offsets against the direct oracle only. distinct = distinct CASE lines; non-trivial = the digit list denotes a non-zero length (or, for const_transmute, the sizes differ)",
     "nontrivial": _nontrivial,
